@@ -16,10 +16,14 @@ MANIFEST = dict(
          "written files, the types each holds and the listed names equal the specification (named types / eligible types of the file / "
          "eligible types of the package; src.shoot<cmd>[.<type>].go with src a base name of the package - no part of an output name "
          "holds a path separator; bad names rejected with a diagnostic, among them names of functions, constants, variables, type "
-         "parameters, function-local and predeclared types). Three finding regions with "
+         "parameters, function-local and predeclared types). Finding regions with "
          "witness theorems (-type=* dot-files; names that are not package-level types, accepted by map/enum/rest - for `new`, which "
          "since /repo 1819261 passes function bodies by, packages with function-local types are in the proved region: model and "
-         "specification are invariant under stripping them); three former ones were repaired in /repo and are now asserted. Model tied to the code by running the rebuilt binary on generated multi-file packages for all four sub-commands, from the "
+         "specification are invariant under stripping them; for EVERY sub-command function-local types of a kind its walk has no eye for - "
+         "e.g. a local struct called like the requested RestClient interface - are proved irrelevant (C16_harmless_locals_ignored) and such "
+         "packages are asserted, with the local type before / in / after the declaring file and in every selection mode); a fourth finding "
+         "region F_case_collision (two selected types whose names differ only in letter case share one per-type file; the earlier output is "
+         "silently lost); three former ones were repaired in /repo and are now asserted. Model tied to the code by running the rebuilt binary on generated multi-file packages for all four sub-commands, from the "
          "package directory and from other directories with [dir], with sub-command flags in the mix, and by an in-process differential "
          "of the go:generate line recogniser against the real findCmdLine.",
     note="Lean kernel + standard axioms; black-box correspondence on the rebuilt shoot binary (directory diff, top-level declarations of "
@@ -250,6 +254,20 @@ def gen_cases(ctx):
                 else:
                     oth = [n for n in p["elig_hint"] if n != tgt]
                     add(p, ["-type=" + ",".join(rng.sample([tgt] + oth[:1], len(oth[:1]) + 1))], ["named-two"] + tags)
+        # ---- two eligible types whose names differ only in letter case (finding F_case_collision where their per-type files coincide) ----
+        for sh, selk in (("case-twin", "both"), ("case-twin", "file-sep"), ("case-twin", "star"), ("case-twin", "one"), ("case-twin-otherfile", "both")):
+            p = g.package(cmd, n_elig=2, nfiles=2, extra=(sh,))
+            if not p.get("twin"):
+                continue
+            tgt, twin, home, host = p["twin"]
+            if selk == "both":
+                add(p, ["-type=" + ",".join(rng.sample([tgt, twin], 2))], ["named-two", sh])
+            elif selk == "file-sep":
+                add(p, ["-file=" + home, "-sep"], ["file-sep", sh])
+            elif selk == "star":
+                add(p, ["-type=*"], ["star", sh], directive="exact")
+            else:
+                add(p, ["-type=" + rng.choice([tgt, twin])], ["named-one", sh])
         # ---- an interface embedding a universe type (used to panic in rest's filter; repaired in /repo 83db8cb) ----
         p = g.package(cmd, n_elig=2, extra=("univ-embed",))
         add(p, ["-type=*"], ["star", "univ-embed"], directive="exact")
